@@ -336,6 +336,8 @@ def pad_case(draw):
     axes = [i for i in range(nd) if draw(st.booleans())] or [draw(st.integers(0, nd - 1))]
     c["pad"] = {str(i): [draw(st.integers(0, 3)), draw(st.integers(0, 3))] for i in axes}
     c["mode"] = draw(st.sampled_from(["constant", "edge", "wrap"]))
+    c["width_type"] = draw(st.sampled_from(["int", "int", "uint8", "uint16", "uint32", "int8", "int32", "int64"]))
+    c["width_container"] = draw(st.sampled_from(["tuple", "list", "array"]))
     return c
 
 
@@ -345,10 +347,25 @@ def check_pad(case):
     lat = gen.lattice_of(g)
     dims = gen.dims_of(g)
     nd = lat.ndim
-    pw = {dims[int(i)]: tuple(v) for i, v in case["pad"].items()}
+    # widths as Python ints or as numpy integers (signed and unsigned), in a tuple, a list or an array
+    wt = case.get("width_type", "int")
+    conv = (lambda v: tuple(v)) if wt == "int" else \
+        (lambda v: list(np.dtype(wt).type(x) for x in v)) if case.get("width_container") == "list" else \
+        (lambda v: np.array(v, dtype=wt)) if case.get("width_container") == "array" else \
+        (lambda v: tuple(np.dtype(wt).type(x) for x in v))
+    pw = {dims[int(i)]: conv(v) for i, v in case["pad"].items()}
+    if wt != "int":
+        tag("width-type=" + wt)
     mode = case["mode"]
     tag(mode)
-    res = f.pad(pw, mode=mode)
+    try:
+        res = f.pad(pw, mode=mode)
+    except TypeError:
+        if wt.startswith("uint"):
+            # numpy promotes a mixture of unsigned widths and the library's own (0, 0) entries to float and refuses
+            # it ("must be of integral type"): a clean refusal of an argument type, not asserted either way
+            raise Reject() from None
+        raise
     lr = [case["pad"].get(str(d), [0, 0]) for d in range(nd)]
     want_n = [lat.n[d] + lr[d][0] + lr[d][1] for d in range(nd)]
     require([int(i) for i in res.mesh.n] == want_n, "pad-n", f"{res.mesh.n} vs {want_n}")
